@@ -25,12 +25,14 @@ func init() {
 			"fixed families x blanks at every subset of positions of short members (patterns and rotated anagrams), all-blank and empty queries; seeded sets (alphabets 1..256, up to 5000 words) x conjunctions of 0..3 seeded queries (members with blanks, near-members, letters outside the alphabet, repeated letters, blank equal to a letter), each searched twice on the Dawg, once on another Dawg and again on the first, partly through counting wrappers. " +
 			"User-defined searchers (the Searcher interface is public): harness-written searchers (word length in a set, byte sum modulo m, prefix in a set, the pattern rule written again) alone and combined with the library's, on every 8th of the 2^15 sets and every 2nd of the 2^13 sets (all: thorough) x 28 fixed conjunctions, on the fixed families and on seeded sets; every searcher sits behind a recorder and the recorded callback protocol is checked (complete Step / Backstep / Chosen rounds over all searchers, AllowStep(b) == true of every searcher before Step(b), nesting with depth 0 at the end, AllowWord only where the stepped letters spell a stored word, one Chosen round per returned solution where the steps spell it); " +
 			"re-entrancy: a searcher whose Chosen (or AllowWord) runs complete inner searches with fresh searchers on the SAME Dawg or on another one: inner and outer results must both equal the reference; every such search carries a step budget (AllowStep refuses after 8 x trie size + 1000 calls => Search|runaway); the same conjunction on a Dawg searched before (after deeper, shallower and unconstrained searches) and on a freshly built one. " +
+			"Word LENGTH as a dimension: fixed families with long words (one word of every length m-1, m, m+1 for m = 256, 512, 1024, 2048, 4096 (thorough: .. 16384) with shared tails and as powers of one letter; the chain a, aa, .., a^1100; 63 words behind a common prefix of 1100 bytes and 10 prefixes of it; 300 words of 160..350 bytes as a product of pieces; one-byte variants of a 2000-byte word; short words mixed with words of 300..3000 bytes; one word of 5000 (thorough: 20000, 65536, 65537) bytes among short ones) and seeded sets with long words (alphabets 1..256; tails of one string, common prefix and tails, chains of prefixes, independent long words among short ones, products of medium pieces, one-byte variants, unary; word lengths drawn short / medium / within 2 of a mark / up to 3300, every 6th set up to 6600 (thorough: 17000)) x conjunctions derived from the longest member, from the members next to the marks and from random members IN FULL LENGTH (exact, all blank, first letter fixed, one blank at a mark, last letter blank, one half blank, random blanks, anagrams shuffled / reversed / with blanks, pattern & anagram, the blank being a letter of the word, near misses of length +-1 or with one byte changed) plus seeded conjunctions, plus the user-defined searchers, nested searches and cold / warm comparisons on the same sets; observation counters say how many searches returned a word of more than 256 / 1024 / 4096 / 65536 bytes and several words totalling more than these marks. " +
+			"Results are the caller's: after EVERY judged search every returned word is overwritten over its full capacity with bytes that depend on its number and offset and must then still hold them (no two results share a byte); the results of a search are kept while the next search (same searcher objects, same or another Dawg) runs, must then read as when they were returned, and are overwritten while the results of that next search are held, which must not change; the words returned by nested inner searches are overwritten before the outer result is compared once more. " +
 			"Reference: filter of the sorted list with byte-wise match predicates; ids = ranks. non-trivial = a search on a Dawg with >= 2 words whose expected result is neither empty nor the whole set; distinct = (set, conjunction) by construction in the exhaustive part, by hash otherwise",
 		Assumptions: []string{
 			"oracle refdawg: match predicates over BYTES (pattern: equal length, every non-blank position equal; anagram: equal length, every non-blank letter at least as often in the word; validated against the permutation definition) applied to the sorted list",
 			"no searcher at all = every word (the intersection over an empty family)",
 			"the Dawgs are built with dawg.New; a set that cannot be built is C12's business and is skipped here (counted)",
-			"the byte slices returned by Search belong to the caller: every result is overwritten after it has been judged, and the further searches, the node dump and the lookups judge that the Dawg shares no memory with them",
+			"the byte slices returned by Search belong to the caller, each up to its capacity, for as long as the caller keeps them: every result is overwritten after it has been judged (partly only after a later search has run), the results must not share memory with each other, and the further searches, the node dump and the lookups judge that the Dawg and the searchers share no memory with them",
 			"unchanged Dawg = identical node dump (verif accessor) and identical Lookup results before and after",
 			"a Search may be started from inside a Searcher callback of a running Search on the same Dawg (the Dawg is read-only during a search, nothing in the documentation forbids it); both must behave as if run alone",
 			"user-defined searchers are pure functions of the letters stepped so far; their reference predicates are in the harness",
@@ -40,6 +42,11 @@ func init() {
 		MinNontrivial:  map[string]int{"quick": 1000000, "thorough": 5000000},
 		RequiredObs: []string{"searches:pattern", "searches:anagram", "searches:pattern&anagram", "searches:no-searcher", "searches_with_reused_searchers", "searches_on_a_second_dawg",
 			"queries:blank_is_a_letter_of_the_set", "queries:letter_outside_the_set", "queries:anagram_with_repeated_letter", "queries:all_blank", "queries:empty", "dawg_unchanged_checks", "spy:balanced_step_backstep", "results:nonempty", "results:empty", "results_overwritten_by_the_caller",
+			"ownership:earlier_results_intact_after_a_later_search", "ownership:results_intact_after_overwriting_earlier_results", "ownership:outer_results_intact_after_overwriting_inner_results",
+			"long:sets_searched", "long:fixed_families", "long:searches_returning_a_word_of_more_than_256_bytes", "long:searches_returning_a_word_of_more_than_1024_bytes", "long:searches_returning_a_word_of_more_than_4096_bytes",
+			"long:searches_with_several_results_totalling_more_than_1024_bytes", "long:searches_with_several_results_totalling_more_than_4096_bytes", "long:searches_with_several_results_totalling_more_than_65536_bytes",
+			"long:patterns_of_more_than_1024_bytes_with_a_result", "long:anagrams_of_more_than_1024_bytes_with_a_result", "long:no_searcher_searches_returning_a_word_of_more_than_1024_bytes",
+			"long:searches_behind_recorders_returning_a_word_of_more_than_1024_bytes", "long:nested_searches_whose_outer_search_returns_a_word_of_more_than_1024_bytes",
 			"protocol_traces_checked", "custom:user_searchers_only", "custom:user_and_library_searchers", "nested:from_Chosen_on_the_same_dawg", "nested:from_AllowWord_on_the_same_dawg", "nested:from_Chosen_on_another_dawg", "nested:from_AllowWord_on_another_dawg", "nested:inner_searches", "cold_warm_comparisons"},
 	})
 }
@@ -155,49 +162,118 @@ func observeQuery(c *engine.Ctx, set *refdawg.Set, qs []refdawg.Query, nres int)
 	}
 }
 
-// overwriteResults: the words returned by Search are the caller's.  It first
-// overwrites one of them and checks that the others did not change (results
-// sharing memory with each other), then overwrites all of them; that the Dawg
-// does not share memory with them is judged by everything that follows
+// fillByte is what the caller writes at offset j of result number i.
+func fillByte(i, j int) byte {
+	return byte((uint32(i)*2654435761)>>24) ^ byte(j) ^ byte(j>>8)*29
+}
+
+// overwriteResults: the words returned by Search are the caller's, each of
+// them up to its capacity (append), and they are distinct objects.  Every
+// result is overwritten over its full capacity with bytes that depend on its
+// number and the offset; afterwards every result must still hold what was
+// written into it, i.e. no two results share a byte (neither within their
+// lengths nor in their spare capacity).  That the Dawg and the searchers do
+// not share memory with the results is judged by everything that follows
 // (further searches against the reference, node dump and lookups unchanged).
 func overwriteResults(c *engine.Ctx, solns [][]byte) string {
 	if len(solns) == 0 {
 		return ""
 	}
-	keep := make([][]byte, len(solns))
-	k := -1
 	for i, w := range solns {
-		keep[i] = append([]byte{}, w...)
-		if k == -1 && len(w) > 0 {
-			k = i
+		w = w[:cap(w)]
+		for j := range w {
+			w[j] = fillByte(i, j)
 		}
 	}
 	msg := ""
-	if k >= 0 {
-		full := solns[k][:cap(solns[k])] // the spare capacity is the caller's as well (append)
-		for i := range full {
-			full[i] = '#'
-		}
-		for i, w := range solns {
-			if i != k && !bytes.Equal(w, keep[i]) {
-				msg = fmt.Sprintf("after overwriting result #%d (%q) result #%d reads %q instead of %q", k, keep[k], i, w, keep[i])
-				break
-			}
-		}
-	}
-	for _, w := range solns {
-		for i := range w {
-			w[i] = '#'
-		}
-		if cap(w) > len(w) {
-			w = w[:cap(w)]
-			for i := range w {
-				w[i] = '#'
+check:
+	for i, w := range solns {
+		w = w[:cap(w)]
+		for j := range w {
+			if w[j] != fillByte(i, j) {
+				msg = fmt.Sprintf("result #%d of %d (len %d, cap %d): after the caller has overwritten every result (each up to its capacity), byte %d of this result no longer holds what was written into it: it shares memory with a later result", i, len(solns), len(solns[i]), cap(solns[i]), j)
+				break check
 			}
 		}
 	}
 	c.Obs("results_overwritten_by_the_caller", 1)
 	return msg
+}
+
+// copyResults keeps what a search has returned, to be compared again later.
+func copyResults(solns [][]byte) [][]byte {
+	total := 0
+	for _, w := range solns {
+		total += len(w)
+	}
+	buf := make([]byte, 0, total)
+	out := make([][]byte, len(solns))
+	for i, w := range solns {
+		buf = append(buf, w...)
+		out[i] = buf[len(buf)-len(w) : len(buf) : len(buf)]
+	}
+	return out
+}
+
+// sameResults compares held results with the copy taken when they were returned.
+func sameResults(held, cp [][]byte) string {
+	for i := range held {
+		if !bytes.Equal(held[i], cp[i]) {
+			return fmt.Sprintf("result #%d was %s when it was returned and reads %s now", i, refdawg.QuoteList(cp[i:i+1], 1), refdawg.QuoteList(held[i:i+1], 1))
+		}
+	}
+	return ""
+}
+
+// block sizes an implementation might cut its results from; the observation
+// counters say on which side of them the result words and result totals were.
+var sizeMarks = []int{256, 1024, 4096, 65536}
+var obsWordOver, obsTotalOver []string
+
+func init() {
+	for _, b := range sizeMarks {
+		obsWordOver = append(obsWordOver, fmt.Sprintf("long:searches_returning_a_word_of_more_than_%d_bytes", b))
+		obsTotalOver = append(obsTotalOver, fmt.Sprintf("long:searches_with_several_results_totalling_more_than_%d_bytes", b))
+	}
+}
+
+// observeLengths records how long the returned words are (after the result
+// has been judged equal to the reference).
+func observeLengths(c *engine.Ctx, qs []refdawg.Query, solns [][]byte) {
+	total, longest := 0, 0
+	for _, w := range solns {
+		total += len(w)
+		if len(w) > longest {
+			longest = len(w)
+		}
+	}
+	if longest <= sizeMarks[0] && total <= sizeMarks[0] {
+		return
+	}
+	c.ObsMax("long:longest_result_word_bytes", longest)
+	c.ObsMax("long:largest_result_total_bytes", total)
+	for k, b := range sizeMarks {
+		if longest > b {
+			c.Obs(obsWordOver[k], 1)
+		}
+		if total > b && len(solns) >= 2 {
+			c.Obs(obsTotalOver[k], 1)
+		}
+	}
+	if longest > 1024 {
+		for _, q := range qs {
+			if len(q.Text) > 1024 {
+				if q.Kind == 'p' {
+					c.Obs("long:patterns_of_more_than_1024_bytes_with_a_result", 1)
+				} else {
+					c.Obs("long:anagrams_of_more_than_1024_bytes_with_a_result", 1)
+				}
+			}
+		}
+		if len(qs) == 0 {
+			c.Obs("long:no_searcher_searches_returning_a_word_of_more_than_1024_bytes", 1)
+		}
+	}
 }
 
 func nontrivialResult(set *refdawg.Set, nres int) bool {
@@ -206,10 +282,24 @@ func nontrivialResult(set *refdawg.Set, nres int) bool {
 
 // built is a Dawg with its model.
 type built struct {
-	d     *dawg.Dawg
-	set   *refdawg.Set
-	alpha []byte
-	label string
+	d      *dawg.Dawg
+	set    *refdawg.Set
+	alpha  []byte
+	label  string
+	limit  int // cached step budget (custom.go)
+	hashV  uint64
+	hashed bool
+	// sets with very long words (long.go): dawg.New is quadratic in the number of nodes
+	slowOK bool // a build beyond the CPU budget is abandoned, not judged
+	noCold bool // no second build for the cold / warm comparison
+}
+
+// hash is the fingerprint of the set, computed once.
+func (b *built) hash() uint64 {
+	if !b.hashed {
+		b.hashV, b.hashed = b.set.Hash(), true
+	}
+	return b.hashV
 }
 
 // buildFor builds the Dawg of a set; a failure is not judged here.
@@ -280,6 +370,23 @@ func judge(c *engine.Ctx, workload, callKey string, b *built, qs []refdawg.Query
 	}
 	kind := f.Kind
 	det := detail(workload, b.set, qs, map[string]interface{}{"call": callKey, "round": round})
+	if len(solns) == len(ids) {
+		// where the first difference is (the lists in the message are cut after 30 words, the words after 40 bytes)
+		want, wantIDs := b.set.Filter(qs)
+		for i := 0; i < len(solns) || i < len(want); i++ {
+			if i >= len(solns) || i >= len(want) {
+				f.Observed += fmt.Sprintf("; %d results, expected %d", len(solns), len(want))
+				break
+			}
+			if !bytes.Equal(solns[i], want[i]) || ids[i] != wantIDs[i] {
+				f.Observed += fmt.Sprintf("; first difference at result #%d: a word of %d bytes with id %d, expected the stored word of %d bytes with rank %d", i, len(solns[i]), ids[i], len(want[i]), wantIDs[i])
+				if ids[i] == wantIDs[i] && len(solns[i]) > 0 && len(solns[i]) < len(want[i]) && bytes.Equal(solns[i], want[i][:len(solns[i])]) {
+					f.Observed += " (the right rank, but the word is only a proper prefix of the stored word)"
+				}
+				break
+			}
+		}
+	}
 	if reused {
 		fresh, pi := dawgx.Searchers(c, callKey+"|fresh", qs)
 		if pi == nil {
@@ -301,6 +408,8 @@ func run(c *engine.Ctx) {
 	// user-defined searchers, callback protocol, nested searches, cold / warm Dawgs (custom.go)
 	customExhaustive(c)
 	customFamiliesAndSeeded(c)
+	// word length as a dimension: long words, long results, large result totals (long.go)
+	longPart(c)
 }
 
 // ---- 1. exhaustive ----
@@ -566,6 +675,9 @@ func searchRounds(c *engine.Ctx, b, other *built, callKey string, qs []refdawg.Q
 		on   *built
 		name string
 	}{{b, "first search"}, {b, "second search with the same searcher objects"}, {other, "same searcher objects on another Dawg"}, {b, "same searcher objects back on the first Dawg"}}
+	var held, heldCopy [][]byte
+	var heldOn *built
+	heldName := ""
 	for ri, r := range rounds {
 		if r.on == nil {
 			continue
@@ -575,11 +687,45 @@ func searchRounds(c *engine.Ctx, b, other *built, callKey string, qs []refdawg.Q
 			dawgx.Report(c, nil, pi, "Search", witness(r.on.set, qs), detail(r.on.label, r.on.set, qs, map[string]interface{}{"call": callKey, "round": r.name}))
 			return false
 		}
+		// The results of the previous round are still in the caller's hands: the search that has just run must not
+		// have touched them, and the caller may do with them what it likes without disturbing the new results.
+		if held != nil {
+			c.Eval(1)
+			if msg := sameResults(held, heldCopy); msg != "" {
+				c.Violation("Search|earlier-results-changed-by-a-later-search|"+witness(heldOn.set, qs), detail(heldOn.label, heldOn.set, qs, map[string]interface{}{"call": callKey, "round": heldName, "later_search": r.name}), msg, "the words returned by a search belong to the caller: a later search leaves them alone")
+				return false
+			}
+			c.Obs("ownership:earlier_results_intact_after_a_later_search", 1)
+		}
 		if !judge(c, r.on.label, callKey, r.on, qs, solns, ids, ri > 0, r.name) {
 			return false
 		}
 		nres := len(solns)
-		if msg := overwriteResults(c, solns); msg != "" {
+		if ri == 0 {
+			observeLengths(c, qs, solns)
+		}
+		var cp [][]byte
+		if nres > 0 && (held != nil || ri < len(rounds)-1) {
+			cp = copyResults(solns)
+		}
+		if held != nil {
+			if msg := overwriteResults(c, held); msg != "" {
+				c.Violation("Search|results-share-memory|"+witness(heldOn.set, qs), detail(heldOn.label, heldOn.set, qs, map[string]interface{}{"call": callKey, "round": heldName}), msg, "independent byte slices")
+				return false
+			}
+			held = nil
+			if nres > 0 {
+				c.Eval(1)
+				if msg := sameResults(solns, cp); msg != "" {
+					c.Violation("Search|results-share-memory-with-earlier-results|"+witness(r.on.set, qs), detail(r.on.label, r.on.set, qs, map[string]interface{}{"call": callKey, "round": r.name, "earlier_search": heldName}), "after the caller has overwritten the words returned by the earlier search: "+msg, "the words returned by two searches are independent byte slices")
+					return false
+				}
+				c.Obs("ownership:results_intact_after_overwriting_earlier_results", 1)
+			}
+		}
+		if nres > 0 && ri < len(rounds)-1 {
+			held, heldCopy, heldOn, heldName = solns, cp, r.on, r.name
+		} else if msg := overwriteResults(c, solns); msg != "" {
 			c.Violation("Search|results-share-memory|"+witness(r.on.set, qs), detail(r.on.label, r.on.set, qs, map[string]interface{}{"call": callKey, "round": r.name}), msg, "independent byte slices")
 			return false
 		}
@@ -592,7 +738,7 @@ func searchRounds(c *engine.Ctx, b, other *built, callKey string, qs []refdawg.Q
 		if ri == 0 {
 			observeQuery(c, b.set, qs, nres)
 			if nontrivialResult(b.set, nres) {
-				c.NT(b.set.Hash(), refdawg.QueriesString(qs))
+				c.NT(b.hash(), refdawg.QueriesString(qs))
 			}
 		}
 		for _, sp := range spies {
